@@ -52,6 +52,10 @@ package ast
 // "sweep" generates index, slice-bounds, nil-dereference, type-assertion, division and explicit-panic
 // obligations from the SSA of the function; the only annotations are loop invariants.
 
+// Every decoder is under the no-panic obligations from the day it is written: a type that gets an UnmarshalYAML of its
+// own later (to validate, to accept a short form) is swept like the ones listed below, with no contract of its own
+//@ sweep_methods UnmarshalYAML                                     [C16]
+
 //@ func (*Cmd).UnmarshalYAML
 //@   sweep                                                         [C16]
 //@   requires forall i :: 0 <= i && i < len(c.Platforms) ==> c.Platforms[i] != nil
@@ -83,8 +87,14 @@ package ast
 //@   sweep                                                         [C16]
 //@ func (*Precondition).UnmarshalYAML
 //@   sweep                                                         [C16]
+// the questions of a task are the texts the Taskfile gives, in any language and script, unedited: whether a task
+// asks at all is decided by the text being non-empty, so a decoder that rewrites a question can silence the guard
 //@ func (*Prompt).UnmarshalYAML
 //@   sweep                                                         [C16]
+//@   nosite store:[]string                                         [C13]
+//@   nosite strings.*                                              [C13]
+//@   nosite (*Regexp).*                                            [C13]
+//@   nosite unicode.*                                              [C13]
 //@ func (*VarsWithValidation).UnmarshalYAML
 //@   sweep                                                         [C16]
 // Data invariant relied on by every consumer of a decoded task (declared below as "nonnil elem"): the
@@ -233,6 +243,11 @@ package ast
 //@   loop 2 invariant forall k {task.Cmds[k]} :: 0 <= k && k < $i && task.Cmds[k] != nil && task.Cmds[k].Task != "" ==> nsDoneC(task.Cmds[k])   [C08,C14,C02]
 //@   site taskNameWithNamespace#4 requires arg0 == name && arg1 == include.Namespace         -- <namespace>:<task>      [C08]
 //@   site taskNameWithNamespace#5 requires arg0 == v.Task      -- <include alias>:<task>: the task's OWN name, not yet prefixed   [C15,C08]
+// the aliases of a merged task are its own aliases plus those the include statement gives it: none is taken away at
+// merge time, whoever else uses the word (an alias that two tasks share is the ambiguity that is REPORTED, 203, when the
+// name is asked for - dropping one of them here would pick a winner silently)
+//@   site store:Task.Aliases requires len(arg1) >= len(arg0.Aliases)                                                    [C15,C08]
+//@   nosite slices.Delete*                                                                                              [C15,C08]
 //@   site (*Vars).Merge#0 requires arg0 == task.IncludeVars && arg1 == include.Vars && arg0 != nil                      [C08,C10]
 //@   site (*Vars).Merge#1 ghost varsDone := true
 //@   site (*Vars).DeepCopy#0 requires arg0 == includedTaskfileVars                                                      [C08,C10]
@@ -299,6 +314,18 @@ package ast
 //@   pure allocates
 //@   nilable vars
 //@   result fnspec omIter
+// The hash of a set of variables (part of the key of run: when_changed) covers EVERY variable of the set, under its
+// own name: two calls that differ in any variable - whatever it is called, whatever the process environment holds -
+// are different calls
+//@ ghost var hashedIn bool scratch
+//@ func (*Vars).Hash$1
+//@   init hashedIn := false
+//@   site mapstore#0 requires arg1 == name                                                                   [C11,C06,C01]
+//@   site mapstore#0 ghost hashedIn := true
+//@   ensures hashedIn                                                                                        [C11,C06,C01]
+//@   nosite os.LookupEnv                                                                                     [C11,C06]
+//@   nosite os.Getenv                                                                                        [C11,C06]
+//@   nosite os.Environ                                                                                       [C11,C06]
 // Every variable taken over from an advanced import is stamped with the directory of THAT include statement
 // (whatever was recorded on it before), so that which parent was merged first can make no difference.
 //@ func (*Vars).Merge
